@@ -144,7 +144,7 @@ def _shard_inner(prop_id, tier, seed, shard, nshards, repo, scale, tmax):
         return out, fresh
 
     # 1. exhaustive grid, partitioned over shards
-    grid = prop.grid(tier) if hasattr(prop, "grid") else []
+    grid = (prop.grid(tier) or []) if hasattr(prop, "grid") else []
     for i, case in enumerate(grid):
         if i % nshards != shard:
             continue
